@@ -29,6 +29,12 @@ theorem updateRange_history_independent (c c' : Constraints R) (f t : J6 R) (hw 
 theorem updateRange_twice (c : Constraints R) (f1 t1 f2 t2 : J6 R) :
     SrcCons.updateRangeSrc (SrcCons.updateRangeSrc c f1 t1) f2 t2 = SrcCons.updateRangeSrc c f2 t2 := rfl
 
+/-- [G] `Constraints::from_degrees` as the CURRENT source text has it: the twelve limits converted to radians, nothing else
+converted (the sorting weight is a pure number), centres and tolerances computed from the converted limits — the object
+`new` builds from the converted limits -/
+theorem fromDegrees_is_source (lo hi : J6 R) (w : R) :
+    SrcCons.fromDegreesSrc lo hi w = Constraints.mk' (lo.map toRadians) (hi.map toRadians) w := rfl
+
 /-- [G] the per-joint sampler nested in `random_angles`, translated from the CURRENT source with the generator's draw as a
 parameter (`gen_range(0.0..len)` ↦ `u`), is the model's `randomAngle`; the translator also checks that joint `i` is drawn from
 `(from[i], to[i])` for i = 0..5.  The C18 theorems (every draw `0 ≤ u < sampleSpan` gives an accepted angle) are about it -/
